@@ -316,7 +316,10 @@ def handle (toks : List String) : String := handleWith Facts.gen toks
   `H`: the path heals and the loop turns until nothing is outstanding (`tail`, i.e. `poll` + the Writes it
   releases).  While the path is down the loop's turns change nothing that is printed (they fail, or — answer
   lost — repeat what the Write's own attempts already delivered), so they are not run; reads are not looked
-  at then.  The poll tokens are not printed: how often the real loop fired is a matter of timing. -/
+  at then.  The poll tokens are not printed: how often the real loop fired is a matter of timing.
+  `P<k>` (during an outage): the loop makes `k` more turns, each failing with a new error value of the outage's cause; the
+  loop's give-up bookkeeping (SA.PollGiveUp, regenerated rule) is run over them, also over the one turn an `L` waits for and
+  the successful turn after an `H`; when it closes the connection the history ends: result `CLOSED`. -/
 
 inductive PEv
   | ev (e : WEv)
